@@ -288,7 +288,14 @@ class URLInfo(object):
             raise ValueError('Invalid IPv6 address: {}'
                              .format(ascii(hostname)))
 
-        hostname = ipaddress.IPv6Address(hostname[1:-1]).compressed
+        address, sep, zone = hostname[1:-1].partition('%')
+
+        # ipaddress takes any text for a zone identifier.
+        if sep and not re.match(r'^[A-Za-z0-9._~-]+$', zone):
+            raise ValueError('Invalid IPv6 zone identifier: {}'
+                             .format(ascii(hostname)))
+
+        hostname = ipaddress.IPv6Address(address).compressed + sep + zone
 
         return hostname
 
